@@ -153,7 +153,7 @@ pub fn run(ctx: &mut Ctx, replay: Option<&Value>) {
         run_case(ctx, case);
         return;
     }
-    let n = ctx.cases.unwrap_or(if ctx.tier_thorough { 20_000 } else { 700 });
+    let n = ctx.count(1_500, 20_000);
     for i in 0..n {
         let mut rng = Rng::fork(ctx.seed, i);
         let case = if i % 5 == 4 { gen_ref_case(&mut rng, ctx.tier_thorough, 30) } else { gen_own_case(&mut rng, ctx.tier_thorough, i, false, 30) };
